@@ -2905,3 +2905,53 @@ func strideMethod(fns []*ssa.Function) *ssa.Function {
 	}
 	return nil
 }
+
+// thresholdSquareRule (C20): the simplifier compares squared distances with the square of the threshold; the
+// square of a finite threshold must itself be finite for the comparison to mean anything.
+func thresholdSquareRule(p *core.Program, r *core.Report, rule string) {
+	r.Rule(rule, "in SimplifyFlatCoords and its worker no float parameter is multiplied by itself except under a dominating comparison of that parameter with a constant (a range guard): t*t is +Inf for every finite t >= 2^512 and `maxDist > +Inf` is false for every measured distance, so the finite thresholds from 2^512 up would behave like an infinite one", 1)
+	dw := mustRdpWorker(p, r, rule)
+	if dw == nil {
+		return
+	}
+	fns := []*ssa.Function{dw}
+	if e := p.SSAFunc("xy", "SimplifyFlatCoords"); e != nil && e != dw {
+		fns = append(fns, e)
+	}
+	n := 0
+	var bad []string
+	for _, fn := range fns {
+		for _, b := range fn.Blocks {
+			for _, in := range b.Instrs {
+				mul, ok := in.(*ssa.BinOp)
+				if !ok || mul.Op != token.MUL || !isFloat64(mul.Type()) {
+					continue
+				}
+				px, okx := eng.StripConv(mul.X).(*ssa.Parameter)
+				py, oky := eng.StripConv(mul.Y).(*ssa.Parameter)
+				if !okx || !oky || px != py {
+					continue
+				}
+				n++
+				guarded := false
+				for _, ib := range controllingIfs(b) {
+					if c, okc := eng.EdgeCmp(ib, 0); okc {
+						_, cx := eng.StripConv(c.X).(*ssa.Const)
+						_, cy := eng.StripConv(c.Y).(*ssa.Const)
+						if (eng.StripConv(c.X) == ssa.Value(px) && cy) || (eng.StripConv(c.Y) == ssa.Value(px) && cx) {
+							guarded = true
+						}
+					}
+				}
+				if !guarded {
+					bad = append(bad, fmt.Sprintf("%s squares its parameter %s at %s with no range guard", short(fn), px.Name(), p.Pos(mul.Pos())))
+				}
+			}
+		}
+	}
+	why := ""
+	if len(bad) > 0 {
+		why = strings.Join(bad, "; ") + ": the square overflows to +Inf for every finite value from 2^512 up"
+	}
+	r.Check(len(bad) == 0, rule, "rdp-threshold-square", p.Pos(dw.Pos()), true, fmt.Sprintf("%d squares of a float parameter, each under a range guard (or none formed)", n), why)
+}
